@@ -15,17 +15,19 @@
 (* examples that the gated schedules of vh table replay on the real code.  *)
 (***************************************************************************)
 EXTENDS Integers, FiniteSets, TLC
-CONSTANTS Players, MinP, MaxHands, Levels,
+CONSTANTS Players, MinP, MaxHands, Levels, MaxRetry,
           Quiet,                 \* TRUE: no external control call at all (liveness runs)
           ExtSetUp,              \* TRUE: the competition layer may call SetUpTableGame at any time (safety runs); FALSE: only for the first hand
 
           KF_OpenAfterClose,     \* pinned: tableGameOpen had no closed/released guard
           KF_GuardOnVisibleOnly, \* pinned: "a hand is running" judged only by the published hand state
-          KF_SurvivorsOnly       \* pinned: next set-up awaited only survivors of the last hand
+          KF_SurvivorsOnly,      \* pinned: next set-up awaited only survivors of the last hand
+          KF_RetryUnguarded      \* pinned: the retry loop of tableGameOpen re-checked only "a hand is running", not closed / released
 
 VARIABLES status, gc, hand, gblind, blind, released, gate, opens, cont, chips, inn, dealt,
-          survivors, ext, closedBetween, opened2   \* survivors: who kept chips in the last hand; the rest are ghosts
-vars == <<status, gc, hand, gblind, blind, released, gate, opens, cont, chips, inn, dealt, survivors, ext, closedBetween, opened2>>
+          survivors, ext, closedBetween, opened2,  \* survivors: who kept chips in the last hand; the rest are ghosts
+          retry                                    \* > 0: tableGameOpen sleeps between attempts WITH te.lock held (attempts left)
+vars == <<status, gc, hand, gblind, blind, released, gate, opens, cont, chips, inn, dealt, survivors, ext, closedBetween, opened2, retry>>
 
 (* hand: "none" | "unpublished" (opened, first state not yet published) | "live" (published) *)
 Running == {"opened", "playing", "settled"}
@@ -38,55 +40,70 @@ IsSet == blind # 0
 Init == /\ status = "created" /\ gc = 0 /\ hand = "none" /\ gblind = 0 /\ blind \in Levels \ {-1}
         /\ released = FALSE /\ gate = NoGate /\ opens = 0 /\ cont = FALSE
         /\ chips = [p \in Players |-> TRUE] /\ inn \in (IF Quiet THEN {[p \in Players |-> TRUE]} ELSE [Players -> BOOLEAN]) /\ dealt = {}
-        /\ survivors = {} /\ ext = FALSE /\ closedBetween = FALSE /\ opened2 = FALSE
+        /\ survivors = {} /\ ext = FALSE /\ closedBetween = FALSE /\ opened2 = FALSE /\ retry = 0
 
 (* ---- external calls (none of them takes te.lock) ---------------------- *)
 SetUp(P) == /\ gate' = [armed |-> TRUE, gc |-> gc + 1, parts |-> P, sig |-> {}]
-            /\ UNCHANGED <<status, gc, hand, gblind, blind, released, opens, cont, chips, inn, dealt, survivors, ext, closedBetween, opened2>>
+            /\ UNCHANGED <<status, gc, hand, gblind, blind, released, opens, cont, chips, inn, dealt, survivors, ext, closedBetween, opened2, retry>>
 Finish(p) == /\ gate.armed /\ p \in gate.parts /\ inn[p]
              /\ gate' = [gate EXCEPT !.sig = @ \cup {p}]
-             /\ UNCHANGED <<status, gc, hand, gblind, blind, released, opens, cont, chips, inn, dealt, survivors, ext, closedBetween, opened2>>
+             /\ UNCHANGED <<status, gc, hand, gblind, blind, released, opens, cont, chips, inn, dealt, survivors, ext, closedBetween, opened2, retry>>
 UpdateBlind(l) == /\ blind' = l
-                  /\ UNCHANGED <<status, gc, hand, gblind, released, gate, opens, cont, chips, inn, dealt, survivors, ext, closedBetween, opened2>>
+                  /\ UNCHANGED <<status, gc, hand, gblind, released, gate, opens, cont, chips, inn, dealt, survivors, ext, closedBetween, opened2, retry>>
 Pause == /\ status' = "pausing" /\ ext' = TRUE
-         /\ UNCHANGED <<gc, hand, gblind, blind, released, gate, opens, cont, chips, inn, dealt, survivors, closedBetween, opened2>>
+         /\ UNCHANGED <<gc, hand, gblind, blind, released, gate, opens, cont, chips, inn, dealt, survivors, closedBetween, opened2, retry>>
 Close == /\ status' = "closed" /\ released' = TRUE /\ ext' = TRUE /\ closedBetween' = (closedBetween \/ hand = "none")
-         /\ UNCHANGED <<gc, hand, gblind, blind, gate, opens, cont, chips, inn, dealt, survivors, opened2>>
+         /\ UNCHANGED <<gc, hand, gblind, blind, gate, opens, cont, chips, inn, dealt, survivors, opened2, retry>>
 Release == /\ released' = TRUE /\ ext' = TRUE /\ closedBetween' = (closedBetween \/ hand = "none")
-           /\ UNCHANGED <<status, gc, hand, gblind, blind, gate, opens, cont, chips, inn, dealt, survivors, opened2>>
+           /\ UNCHANGED <<status, gc, hand, gblind, blind, gate, opens, cont, chips, inn, dealt, survivors, opened2, retry>>
 Rebuy(p) == /\ ~chips[p] /\ chips' = [chips EXCEPT ![p] = TRUE]
-            /\ UNCHANGED <<status, gc, hand, gblind, blind, released, gate, opens, cont, inn, dealt, survivors, ext, closedBetween, opened2>>
+            /\ UNCHANGED <<status, gc, hand, gblind, blind, released, gate, opens, cont, inn, dealt, survivors, ext, closedBetween, opened2, retry>>
 SitIn(p) == /\ ~inn[p] /\ inn' = [inn EXCEPT ![p] = TRUE]
-            /\ UNCHANGED <<status, gc, hand, gblind, blind, released, gate, opens, cont, chips, dealt, survivors, ext, closedBetween, opened2>>
+            /\ UNCHANGED <<status, gc, hand, gblind, blind, released, gate, opens, cont, chips, dealt, survivors, ext, closedBetween, opened2, retry>>
 
 (* ---- the gate (abstract: all signalled, or its 2 s timeout) ------------ *)
 GateFire == /\ gate.armed /\ opens < 2      \* (bound of the model: at most two callbacks in flight)
             /\ gate' = [gate EXCEPT !.armed = FALSE]
             /\ opens' = IF Cardinality(gate.parts) > 1 THEN opens + 1 ELSE opens
-            /\ UNCHANGED <<status, gc, hand, gblind, blind, released, cont, chips, inn, dealt, survivors, ext, closedBetween, opened2>>
+            /\ UNCHANGED <<status, gc, hand, gblind, blind, released, cont, chips, inn, dealt, survivors, ext, closedBetween, opened2, retry>>
 
 (* ---- tableGameOpen: one critical section under te.lock ------------------ *)
 OpenGuardsPass ==
   /\ (KF_OpenAfterClose \/ ~(released \/ status = "closed"))
   /\ hand # "live"
   /\ (KF_GuardOnVisibleOnly \/ (status \notin Running /\ hand = "none"))   \* hand # "none" <=> the hand's player list is non-empty
-TableGameOpen ==
-  /\ opens > 0 /\ opens' = opens - 1
-  /\ IF OpenGuardsPass /\ IsSet /\ ~IsBreak /\ Cardinality(AliveIn) >= 2 /\ gc < MaxHands   \* (bound of the model)
-     THEN /\ status' = "playing" /\ gc' = gc + 1 /\ hand' = "unpublished" /\ gblind' = blind /\ dealt' = AliveIn
+(* openGame: "not set" and "the seat manager cannot place two players" are the retryable failure, a break is final *)
+Retryable == ~IsSet \/ (~IsBreak /\ Cardinality(AliveIn) < 2)
+OpenSucceeds == IsSet /\ ~IsBreak /\ Cardinality(AliveIn) >= 2 /\ gc < MaxHands   \* (gc < MaxHands: bound of the model)
+DoOpen == /\ status' = "playing" /\ gc' = gc + 1 /\ hand' = "unpublished" /\ gblind' = blind /\ dealt' = AliveIn
           /\ opened2' = (opened2 \/ hand # "none")
           /\ UNCHANGED <<blind, released, gate, cont, chips, inn, survivors, ext, closedBetween>>
-     ELSE UNCHANGED <<status, gc, hand, gblind, blind, released, gate, cont, chips, inn, dealt, survivors, ext, closedBetween, opened2>>
+NoOpen == UNCHANGED <<status, gc, hand, gblind, blind, released, gate, cont, chips, inn, dealt, survivors, ext, closedBetween, opened2>>
+TableGameOpen ==
+  /\ retry = 0 /\ opens > 0 /\ opens' = opens - 1
+  /\ IF OpenGuardsPass /\ OpenSucceeds THEN DoOpen /\ retry' = 0
+     ELSE IF OpenGuardsPass /\ Retryable THEN NoOpen /\ retry' = MaxRetry      \* sleeps 3 s, lock held
+     ELSE NoOpen /\ retry' = 0
+(* one turn of the retry loop, after its sleep.  te.lock is held all the while, which keeps out other gate callbacks,
+   PlayerReserve / PlayersLeave / UpdateTablePlayers and the players' game actions -- but UpdateBlind, Pause, Close,
+   Release, SetUp, the settlement signals, PlayerJoin and PlayerRedeemChips take no lock and may have landed *)
+OpenRetry ==
+  /\ retry > 0 /\ UNCHANGED opens
+  /\ IF status \in Running THEN NoOpen /\ retry' = 0
+     ELSE IF ~KF_RetryUnguarded /\ (released \/ status = "closed") THEN NoOpen /\ retry' = 0
+     ELSE IF OpenSucceeds THEN DoOpen /\ retry' = 0
+     ELSE IF Retryable THEN NoOpen /\ retry' = retry - 1
+     ELSE NoOpen /\ retry' = 0
 
 (* ---- updater goroutine --------------------------------------------------- *)
 Publish == /\ hand = "unpublished" /\ hand' = "live"
-           /\ UNCHANGED <<status, gc, gblind, blind, released, gate, opens, cont, chips, inn, dealt, survivors, ext, closedBetween, opened2>>
+           /\ UNCHANGED <<status, gc, gblind, blind, released, gate, opens, cont, chips, inn, dealt, survivors, ext, closedBetween, opened2, retry>>
 (* settleGame + continueGame's reset run back to back in the updater *)
 SettleAndReset(keep) ==
   /\ hand = "live" /\ keep # {} /\ keep \subseteq dealt
   /\ chips' = [p \in Players |-> IF p \in dealt THEN p \in keep ELSE chips[p]]
   /\ status' = "standby" /\ hand' = "none" /\ cont' = TRUE /\ dealt' = {} /\ survivors' = keep
-  /\ UNCHANGED <<gc, gblind, blind, released, gate, opens, inn, ext, closedBetween, opened2>>
+  /\ UNCHANGED <<gc, gblind, blind, released, gate, opens, inn, ext, closedBetween, opened2, retry>>
 ContinueFire ==
   /\ cont /\ cont' = FALSE
   /\ IF status = "closed" \/ released THEN UNCHANGED <<status, gate>>
@@ -96,16 +113,16 @@ ContinueFire ==
                            parts |-> IF KF_SurvivorsOnly THEN survivors ELSE AliveIn]
                /\ UNCHANGED status
           ELSE UNCHANGED <<status, gate>>
-  /\ UNCHANGED <<gc, hand, gblind, blind, released, opens, chips, inn, dealt, survivors, ext, closedBetween, opened2>>
+  /\ UNCHANGED <<gc, hand, gblind, blind, released, opens, chips, inn, dealt, survivors, ext, closedBetween, opened2, retry>>
 
 Next ==
   \/ gc < MaxHands /\ (ExtSetUp \/ (gc = 0 /\ status = "created" /\ ~gate.armed /\ opens = 0)) /\ \E P \in SUBSET Players : SetUp(P)
   \/ \E p \in Players : (~Quiet /\ Finish(p)) \/ Rebuy(p) \/ (~Quiet /\ SitIn(p))
   \/ ~Quiet /\ \E l \in Levels : UpdateBlind(l)
   \/ ~Quiet /\ (Pause \/ Close \/ Release)
-  \/ GateFire \/ TableGameOpen \/ Publish \/ ContinueFire
+  \/ GateFire \/ TableGameOpen \/ OpenRetry \/ Publish \/ ContinueFire
   \/ \E keep \in SUBSET Players : SettleAndReset(keep)
-Internal == GateFire \/ TableGameOpen \/ Publish \/ ContinueFire \/ \E keep \in SUBSET Players : SettleAndReset(keep)
+Internal == GateFire \/ TableGameOpen \/ OpenRetry \/ Publish \/ ContinueFire \/ \E keep \in SUBSET Players : SettleAndReset(keep)
 Spec == Init /\ [][Next]_vars /\ WF_vars(Internal)
 
 (* ---- property layer (C07, C08, C12 as stated for the model) ------------- *)
@@ -126,5 +143,5 @@ C08_Opens == [](( ~ext /\ gate.armed /\ status = "standby" /\ Cardinality(gate.p
                 ~> (status # "standby" \/ ext \/ blind \in {-1, 0} \/ Cardinality(AliveIn) < 2))
 LevelsDef == {-1, 0, 1, 2}
 LevelsSmall == {-1, 1}
-View == <<status, gc, hand, gblind, blind, released, gate, opens, cont, chips, inn, dealt, survivors, ext, closedBetween, opened2>>
+View == <<status, gc, hand, gblind, blind, released, gate, opens, cont, chips, inn, dealt, survivors, ext, closedBetween, opened2, retry>>
 =============================================================================
